@@ -68,6 +68,14 @@ fn run_tree(t: &Tree, depth: u32, o: &mut Obs) -> u64 {
             let regs = trapemu::regs();
             regs.pushfq_or &= !(t.id >> 2) | 0x200;
         }
+        // a nested call whose closure panics (caught here, inside the enclosing body) leaves the flag as it found it too
+        if t.id & 7 == 6 {
+            let before_inner = trapemu::regs().iflag;
+            let r = crate::util::catch(|| interrupts::without_interrupts(|| -> u64 { panic!("closure gives up") }));
+            if r.is_ok() || trapemu::regs().iflag != before_inner {
+                o.flag_not_restored += 1;
+            }
+        }
         for k in t.kids.iter() {
             run_tree(k, depth + 1, o);
             // a nested call must leave the flag clear for the rest of the enclosing body
@@ -103,6 +111,9 @@ fn tree_case(rep: &mut Report, r: &mut Rng, initial_if: bool, maxdepth: u32, max
     // two ways to let the code under test see the emulated flag: the cfg-gated overlay applied after the real
     // pushfq (hook H1), or - without any hook - single-stepping and emulating every pushfq itself
     regs.mirror_if = !step_mode;
+    // in single-step mode a popfq inside the call is intercepted and recorded (in ring 0 it would rewrite IF; here it
+    // would load the emulated "other bits" into the real RFLAGS)
+    regs.capture_popfq = step_mode;
     if step_mode {
         x86_64::verif_hooks::RFLAGS_IF_OVERLAY.store(0, Ordering::Relaxed);
     }
@@ -123,6 +134,8 @@ fn tree_case(rep: &mut Report, r: &mut Rng, initial_if: bool, maxdepth: u32, max
         v
     });
     trapemu::regs().pushfq_or = 0;
+    trapemu::regs().capture_popfq = false;
+    trapemu::regs().rflags_override = None;
     let pushfqs = evs_all.iter().filter(|e| e.kind == K::Pushfq).count();
     PUSHFQS.fetch_add(pushfqs as u64, Ordering::Relaxed);
     let evs: Vec<Event> = evs_all.into_iter().filter(|e| e.kind != K::Pushfq).collect();
